@@ -6,8 +6,8 @@ from core import Result
 import proto, gen, implutil
 
 THEOREMS = ['C18_limit_rule', 'C18_limit_sublist', 'C18_limit_membership', 'C18_limit_outside', 'C18_limit_reset', 'C18_limit_signal', 'C18_split_drop', 'C18_flatten', 'C18_flatten_labels']
-RULE = ("cycle tables of generated signals, both centrings x start/stop in {None, random, exactly on a cycle boundary (last/next side extremum / fs), windows containing no cycle} x "
-        "reset_indices; limit_signal on the sample grid with the same limits; split_samples_df / drop_samples_df on the same tables; flatten_dfs on 1-D and 2-D lists of tables "
+RULE = ("cycle tables of generated signals, both centrings x start/stop in {None, exactly 0, random, exactly on a cycle boundary (last/next side extremum / fs), windows containing no cycle} x "
+        "reset_indices x row labels 0..n-1 / repeated (flattened channels) / offset; limit_signal on the sample grid with the same limits, time axis starting at 0 or before 0; split_samples_df / drop_samples_df on the same tables; flatten_dfs on 1-D and 2-D lists of tables "
         "with labels (and mismatching label counts); judge: Lean specifications limitSpec / limitSignalSpec, column partition, order and labels; "
         "distinct = distinct (table, limits, flags); non-trivial = a strict non-empty subset of the rows / samples is kept")
 ASSUMPTIONS = ["the window limits are shipped as the equivalent sample thresholds (smallest sample with s/fs >= start, largest with s/fs <= stop, computed in float64 as the implementation compares); the model is about the selection and the shift",
@@ -42,10 +42,12 @@ def generate(ctx):
         def lim():
             u = rng.random()
             if u < 0.2: return None
+            if u < 0.27: return 'z'                                  # exactly 0 (a falsy limit is still a limit)
             if u < 0.5: return 'r%.6f' % rng.random()              # fraction of the duration
             if u < 0.8: return 'b%d:%d' % (int(rng.integers(1 << 20)), int(rng.integers(2)))   # on a cycle boundary (row pick, last/next)
             return 'g%d' % int(rng.integers(1 << 20))               # on the sample grid
-        cases.append(dict(kind='limit', seed=int(rng.integers(40)), center=str(rng.choice(['peak', 'trough'])), a=lim(), b=lim(), reset=bool(rng.integers(2))))
+        cases.append(dict(kind='limit', seed=int(rng.integers(40)), center=str(rng.choice(['peak', 'trough'])), a=lim(), b=lim(), reset=bool(rng.integers(2)),
+                          shift=int(rng.choice([0, 0, 1, 3])), lab=int(rng.choice([0, 0, 1, 2]))))
     for i in range(ctx.scale(40, 400)):
         cases.append(dict(kind='cols', seed=int(rng.integers(40)), center=str(rng.choice(['peak', 'trough'])), method=str(rng.choice(['cycles', 'amp']))))
     for i in range(ctx.scale(60, 600)):
@@ -62,6 +64,7 @@ def _get(seed, center):
 def _resolve(spec, df, fs, n, center):
     if spec is None: return None
     side = 'trough' if center == 'peak' else 'peak'
+    if spec == 'z': return 0.0
     if spec[0] == 'r': return float(spec[1:]) * n / fs
     if spec[0] == 'g': return int(spec[1:]) % n / fs
     k, which = spec[1:].split(':')
@@ -79,7 +82,10 @@ def evaluate(ctx, cases):
             a, b = _resolve(c['a'], df, fs, n, c['center']), _resolve(c['b'], df, fs, n, c['center'])
             if a is not None and b is not None and a > b:
                 a, b = b, a
-            times = np.arange(n) / fs
+            # the time axis of limit_signal may start before 0 (event-locked axes); row labels may repeat (flattened channels) or be offset
+            times = (np.arange(n) - (n * c.get('shift', 0)) // 4) / fs
+            if c.get('lab', 0):
+                df = df.copy(); df.index = (np.arange(len(df)) % 3) if c['lab'] == 1 else (np.arange(len(df)) + 5)
             try:
                 got = implutil.twice(lambda: implutil.quiet(limit_df, df, fs, start=a, stop=b, reset_indices=c['reset']), [df], 'limit_df'); gerr = None
             except Exception as e:
@@ -150,7 +156,7 @@ def evaluate(ctx, cases):
             judge_ok = cmp_df(s_df, 'judge_df') & cmp_sig(s_sg, 'judge_sig')
             corr_ok = cmp_df(m_df, 'model_df') & cmp_sig(m_sg, 'model_sig')
             nt = 0 < len(s_df) < len(p['df'])
-            ctx.hist('limits', '%s/%s' % ('None' if c['a'] is None else c['a'][0], 'None' if c['b'] is None else c['b'][0]))
+            ctx.hist('limits', '%s/%s' % ('None' if c['a'] is None else c['a'][0], 'None' if c['b'] is None else c['b'][0])); ctx.hist('row labels', ['0..n-1', 'repeated', 'offset'][c.get('lab', 0)])
         elif c['kind'] == 'cols':
             from bycycle.features import compute_features
             df, sig, fs = _get(c['seed'], c['center'])
